@@ -8,7 +8,7 @@ CONSTANTS
   MaxVariants = 3
   MaxFields = 2
   StructSources <- AllSources
-  EnumSources <- AllSources
+  EnumSources <- MidSources
   Vals = {0, 1}
 INVARIANTS ImplMeetsPlan DesignationSound
 CHECK_DEADLOCK FALSE
